@@ -189,4 +189,18 @@ PROPS = {
         assumptions=["router half; the registration half (handle_stream, Ok-before-enqueue, kind mismatch) is the Server/Registry model and the registry e2e suite when present in Props/C11.lean"],
         explanation="",
     ),
+    "C03": dict(
+        module="SeliumModel.Props.C03",
+        suites=["e2epub"],
+        level="proof",
+        rule="a real Publisher and Subscriber (client library) through an in-process selium server over loopback QUIC with certificates generated at run time by the bundled generator: codec (String/Bytes/Bincode) x compression (none, gzip, zlib, zstd, lz4, brotli) x batching (off; sizes 1,3,4,100 with a 60 s interval; size 3 with 0 ms and 5 ms intervals) x item counts 0,1,size-1,size,size+1,2*size+1; plus isolated-process cases for extreme batch sizes / intervals (0, u32::MAX, u64::MAX ms, Duration::MAX); the indices of the items the subscriber yields are compared with the Lean model of the publisher/subscriber pipeline; distinct = distinct case lines, trivial = 0 items",
+        trusted_base=COMMON_TRUST + [
+            "quinn / rustls / tokio transport; the server forwards frames in order (C01)",
+            "compressors invert themselves (Compressor.Lossless; tested in C14)",
+            "modelled by hand: Publisher Sink impl, MessageBatch, Publisher::finish, Subscriber::poll_next",
+        ],
+        assumptions=["the subscriber's registration took effect before the first send (the harness waits 40 ms after open())",
+                     "time enters only as the per-poll_ready 'interval elapsed' oracle; the theorem holds for every oracle"],
+        explanation="",
+    ),
 }
